@@ -78,7 +78,9 @@ HOOK_COMMITS = ["33b7190 verif: add the NANO_VERIF hook header (no-op unless the
                 "d73ded6 verif: optional override of pool_t::max_size() (guarded by NANO_VERIF, add-only)",
                 "b10c141 verif: event kinds for the quasi-Newton update and the L-BFGS direction (guarded by NANO_VERIF, add-only)",
                 "1a2d3c2 verif: quasi-Newton update and L-BFGS direction value events (guarded by NANO_VERIF, add-only)",
-                "5ddf7c9 verif: ellipsoid update value event (guarded by NANO_VERIF, add-only)"]
+                "5ddf7c9 verif: ellipsoid update value event (guarded by NANO_VERIF, add-only)",
+                "b097245 verif: conjugate-gradient direction value event (guarded by NANO_VERIF, add-only)",
+                "5425f48 verif: interior-point program and iteration value events (guarded by NANO_VERIF, add-only)"]
 
 if __name__ == "__main__":
     main()
